@@ -41,7 +41,7 @@ template<class H, class T> static void run_pool(Rng& r, Ctx& c, const std::strin
 
 static void run_case(Rng& r, Ctx& c)
 {
-  int kind = r.irange(0, 11);
+  int kind = r.irange(0, 13);
   switch (kind)
   {
     case 0: run_pool<VectorInt, int>(r, c, "VectorInt"); break;
@@ -56,6 +56,8 @@ static void run_case(Rng& r, Ctx& c)
     case 9: c10o::objMatrix(r, c); break;
     case 10: c10o::objPoly(r, c); break;
     case 11: c10o::objNeigh(r, c); break;
+    case 12: if (r.coin()) c10o::objVarioParam(r, c); else c10o::objCovAniso(r, c); break;
+    case 13: c10o::objAnam(r, c); break;
   }
 }
 int main(int argc, char** argv) { return run_main(argc, argv, "C10copies", run_case); }
